@@ -460,6 +460,44 @@ def run_heap(ops, share=False):
 # the strata over the extended heap model (Lib/HeapX.lean)
 HEAPX = True
 
+
+def run_heapflat(ops, k):
+    """the history (create / copy / swapaxes / rollaxis / T / newaxis / slice), then b = env[k].flatten(): does b.values share
+    memory with env[k].values, b's shape, values and the name of the grouped axis"""
+    env = []
+    for op in ops:
+        t = op[0]
+        try:
+            if t == "create":
+                _, shape, cells, axes, attrs = op
+                axs = [Axis(np.array(labels, dtype=np.int64), name) for name, labels, _ in axes]
+                env.append(DimArray(np.array(cells, dtype=np.int64).reshape(shape), axes=axs))
+            elif t == "copy":
+                env.append(env[op[1]].copy())
+            elif t == "swapaxes":
+                env.append(env[op[1]].swapaxes(op[2], op[3]))
+            elif t == "rollaxis":
+                env.append(env[op[1]].rollaxis(op[2]))
+            elif t == "T":
+                env.append(env[op[1]].T)
+            elif t == "newaxis":
+                env.append(env[op[1]].newaxis(op[2], pos=op[3]))
+            elif t == "slice":
+                env.append(env[op[1]].take(slice(op[3], op[4], op[5]), axis=op[2], indexing="position"))
+        except Exception:
+            continue
+    if k >= len(env):
+        return None
+    a = env[k]
+    before = obs_live(a)
+    try:
+        b = a.flatten()
+    except Exception:
+        return None
+    return {"shares": bool(np.shares_memory(b.values, a.values)), "shape": [int(x) for x in b.shape],
+            "values": [int(v) for v in np.asarray(b.values).reshape(-1).tolist()], "name": str(b.axes[0].name),
+            "_operand_unchanged": before == obs_live(a), "_contig": bool(a.values.flags["C_CONTIGUOUS"])}
+
 DERIVED_CALLS = (
     ["add", "radd", "add_self", "reshape_same", "reshape_t", "mean", "sum_axis0", "transpose", "copy", "sort_axis", "take0", "eq",
      "align", "stack_with", "to_dataset", "unflatten", "fillna", "percentile", "quantile", "quantile_last", "median", "cumsum",
@@ -484,7 +522,7 @@ class C15(Prop):
     theorems = ["Heap.apply_extends", "Heap.obsArr_append", "Heap.wf_step", "Heap.wf_run", "Heap.wf_step_counterexample", "Heap.nonmut_frame", "Heap.nonmut_history_frame", "Heap.deepCopy_spec", "Heap.mutate_below", "Heap.mutate_above", "Heap.obsArr_below", "Heap.obsArr_above", "Heap.separation_below", "Heap.separation_above", "Heap.copy_independent", "Heap.copy_independent_rev",
                 "Heap.xapply_extends", "Heap.xnonmut_frame", "Heap.xnonmut_history_frame", "Heap.transpose_shares", "Heap.swapaxes_shares",
                 "Heap.rollaxis_shares", "Heap.tT_rank0_same", "Heap.newaxis_shares_values", "Heap.reduceSum_shares_axes",
-                "Heap.write_through_view", "Heap.write_through_view_counterexample", "Heap.fresh_values_independent",
+                "Heap.write_through_view", "Heap.write_through_view_counterexample", "Heap.transpose_view_cell", "Heap.swapaxes_is_transpose", "Heap.rollaxis_is_transpose", "Heap.tT_is_transpose", "Heap.write_through_transpose", "Heap.write_through_swapaxes", "Heap.write_through_rollaxis", "Heap.write_through_tT", "Heap.write_through_transpose_counterexample", "Heap.flatten_shares_iff_contiguous", "Heap.flatten_shares_iff_contiguous_counterexample", "Heap.fresh_values_independent",
                 "Heap.dsVar_shares", "Heap.xwf_step", "Heap.xwf_run", "Heap.xwf_step_counterexample", "Heap.xmixed_history_frame", "Heap.xmixed_step_frame"]
     rule = ("(heap) object-level histories of 2-9 steps over 1-5 live arrays of rank 1-3: create (unsorted integer labels, "
             "metadata with atoms and mutable lists on the array and on its axes), copy(), transpose, squeeze, a[:], "
@@ -510,8 +548,18 @@ class C15(Prop):
             "reductions handed out by descriptors, classmethods, T, package functions; for assignments and constructors "
             "the operands other than the receiver) with transposed siblings and mutable metadata. Non-trivial = a "
             "history with a mutation after a copy or derived array / a sweep case with at least one monitored call; "
-            "distinct = canonical JSON")
-    assumptions = ["PARTIAL: the theorems are about the object-level model of the aliasing discipline (which result components "
+            "distinct = canonical JSON; (heapflat) an array of rank 1-3 (sizes 0-4), 0-3 arrays derived from the live ones by "
+            "swapaxes / rollaxis / T / newaxis / position slices along dimension 0 / copy, then b = env[k].flatten() of all dimensions: "
+            "np.shares_memory(b.values, env[k].values), b's shape, values and the name of the grouped axis against "
+            "Heap.flattenObs (view iff the index map of env[k] is the identity enumeration), and on the implementation "
+            "alone: shares iff env[k].values is C-contiguous (non-empty), the operand unchanged")
+    assumptions = ["heapflat: the model decides contiguity from the index map of a view; the MEMORY LAYOUT of a new buffer is not "
+                   "modelled (NumPy keeps the operand's layout in a.T.copy() and in position slices of a.T / along a later "
+                   "dimension, so their flatten() copies again where the model would say view): copy / slice steps of the "
+                   "heapflat stratum are generated for certainly contiguous operands and slices along dimension 0 only. The "
+                   "grouped axis of the result (tuple labels) is represented by a new Axis object with the joined name; "
+                   "flatten of a subset of the dimensions and reshape are not mirrored in the heap model",
+                   "PARTIAL: the theorems are about the object-level model of the aliasing discipline (which result components "
                    "are new objects, which are shared); for operations outside the heap model (interpolation, joining, stacking, "
                    "alignment of operands with different labels, flatten / reshape, cumulative functions, Dataset operations) the "
                    "property is decided by the snapshot monitor over generated calls only (a search, not a proof)",
@@ -616,6 +664,64 @@ class C15(Prop):
                     mm = ["append_axis_attr", d, rng.choice(["hist", "units"]), "i%d" % rng.randint(0, 9)]
                 ops.append(["mut", k, mm])
         return {"op": "heap", "ops": ops, "_groups": groups, "seed": i}
+
+    def gen_heapflat(self, rng, i):
+        """create an array of rank 1-3, derive 0-3 arrays by transposes / newaxis / position slices / copy, flatten one"""
+        rank = rng.choice([1, 2, 2, 2, 3, 3])
+        shape = [rng.choice([1, 2, 2, 3, 3, 4]) for _ in range(rank)]
+        if i % 37 == 5:
+            shape[rng.randrange(rank)] = 0
+        n = 1
+        for x in shape:
+            n *= x
+        ops = [["create", shape, [rng.randint(-9, 9) for _ in range(n)],
+                [["d%d" % d, [rng.randint(-5, 5) for _ in range(shape[d])], []] for d in range(rank)], []]]
+        shapes = [shape]
+        # LIMIT of the model: a new buffer made from a non-contiguous operand (a.T.copy(), a position slice of a.T) keeps the
+        # operand's memory layout in NumPy (so its flatten() copies again); the model's fresh buffers are row-major.  copy / slice
+        # are therefore generated for operands that are certainly contiguous only (plain[k]).
+        plain = [True]
+        for _ in range(rng.choice([0, 1, 1, 2, 2, 3])):
+            k = rng.randrange(len(shapes))
+            sh = shapes[k]
+            r = len(sh)
+            t = rng.choice(["swapaxes", "rollaxis", "T", "newaxis", "slice", "copy"])
+            if t in ("slice", "copy") and not plain[k]:
+                t = rng.choice(["swapaxes", "rollaxis", "newaxis"])
+            plain.append(plain[k] and t in ("slice", "copy", "newaxis"))
+            if t == "swapaxes":
+                a, b = rng.randrange(r), rng.randrange(r)
+                nsh = list(sh); nsh[a], nsh[b] = sh[b], sh[a]
+                ops.append(["swapaxes", k, a, b])
+            elif t == "rollaxis":
+                d = rng.randrange(r)
+                nsh = [sh[d]] + [x for j, x in enumerate(sh) if j != d]
+                ops.append(["rollaxis", k, d])
+            elif t == "T":
+                if r > 2:
+                    plain.pop()
+                    continue
+                nsh = list(reversed(sh))
+                ops.append(["T", k])
+            elif t == "newaxis":
+                if r >= 3:
+                    plain.pop()
+                    continue
+                pos = rng.randrange(r + 1)
+                nsh = sh[:pos] + [1] + sh[pos:]
+                ops.append(["newaxis", k, "n%d" % len(shapes), pos])
+            elif t == "slice":
+                # along the FIRST dimension only: the values of a position slice along a later dimension are a new buffer
+                # laid out transposed (take_axis goes through swapaxes), a memory layout the model's fresh buffers do not carry
+                d = 0
+                a = rng.randrange(sh[d] + 1); b = rng.randrange(a, sh[d] + 1); st = rng.choice([1, 1, 2])
+                nsh = list(sh); nsh[d] = len(range(a, b, st))
+                ops.append(["slice", k, d, a, b, st])
+            else:
+                nsh = list(sh)
+                ops.append(["copy", k])
+            shapes.append(nsh)
+        return {"op": "heapflat", "ops": ops, "k": rng.randrange(len(shapes)), "seed": i}
 
     def gen_heapx(self, rng, i):
         """histories over the extended operation set (Lib/HeapX.lean); the generator tracks shapes and (as far as it can:
@@ -1285,6 +1391,9 @@ class C15(Prop):
             r3 = __import__("random").Random(7919 + int(os.environ.get("VERIF_SEED", "0")))
             for i in range(400 if tier == "quick" else 8000):
                 yield self.gen_heapx(r3, i)
+            r4 = __import__("random").Random(104729 + int(os.environ.get("VERIF_SEED", "0")))
+            for i in range(300 if tier == "quick" else 6000):
+                yield self.gen_heapflat(r4, i)
         for i in range(250 if tier == "quick" else 5000):
             c = self.gen_ds(rng, i)
             if i < 24:
@@ -1330,6 +1439,8 @@ class C15(Prop):
                 return {"ok": {"steps": run_heap(c["ops"])}}
             if c["op"] == "heapx":
                 return {"ok": {"steps": run_heap(c["ops"], share=True)}}
+            if c["op"] == "heapflat":
+                return {"ok": {"flat": run_heapflat(c["ops"], c["k"])}}
             if c["op"] == "ds":
                 return self.run_ds(c)
             if c["op"] == "derived":
@@ -1379,6 +1490,8 @@ class C15(Prop):
             return {"op": "heap_history", "ops": c["ops"]}
         if c["op"] == "heapx":
             return {"op": "heapx_history", "ops": c["ops"]}
+        if c["op"] == "heapflat":
+            return {"op": "heapflat", "ops": c["ops"], "k": c["k"]}
         return {"op": "union", "a": {"name": "x", "kind": "i", "labels": []}, "b": {"name": "x", "kind": "i", "labels": []}, "join": "outer"}
 
     def judge(self, c, io, ans):
@@ -1390,6 +1503,20 @@ class C15(Prop):
                 return None
             return {"kind": "P", "differs": sorted(set("operand_modified:%s:%s" % (x["func"], x["changed"]) for x in v)), "msg": None,
                     "detail": v[:5]}
+        if c["op"] == "heapflat":
+            lib, lean = io["ok"]["flat"], ans.get("flat", "missing")
+            if lib is not None and not lib["_operand_unchanged"]:
+                return {"kind": "P", "differs": ["flatten:operand_changed"], "msg": None}
+            if lib is not None and lib["_contig"] and lib["values"] and not lib["shares"]:
+                # flatten_shares_iff_contiguous read on the implementation: a contiguous operand is viewed, not copied
+                return {"kind": "P", "differs": ["flatten:contiguous_operand_copied"], "msg": None}
+            if lib is not None and not lib["_contig"] and lib["shares"]:
+                return {"kind": "P", "differs": ["flatten:non_contiguous_operand_shared"], "msg": None}
+            pub = None if lib is None else {f: lib[f] for f in ("shares", "shape", "values", "name")}
+            if pub == lean:
+                return None
+            which = ["flat.refusal"] if (pub is None or not isinstance(lean, dict)) else ["flat." + f for f in pub if pub[f] != lean.get(f)]
+            return {"kind": "M", "differs": which, "msg": None}
         steps = io["ok"]["steps"]
         prop_bad, bad = [], []
         groups = c["_groups"]
@@ -1456,6 +1583,12 @@ class C15(Prop):
 
     def features(self, c, io):
         f = {"outcome": "err:" + io["err"] if "err" in io else "ok", "op": c["op"]}
+        if c["op"] == "heapflat":
+            fl = io["ok"]["flat"] if "ok" in io else None
+            f["flatten"] = "refused" if fl is None else ("view" if fl["shares"] else ("empty" if not fl["values"] else "copy"))
+            for op in c["ops"]:
+                f["flat:" + op[0]] = 1
+            return f
         if c["op"] in ("heap", "heapx"):
             for op in c["ops"]:
                 f["heap:" + (op[0] if op[0] != "mut" else "mut:" + op[2][0])] = 1
